@@ -370,6 +370,7 @@ def r7(ctx):
 
 
 RULES = [
+    ("C11.R16", "P1", lambda ctx: r16_shallow_checks_by_value(ctx), "the shallow element checks of sequences, collections and mappings decide by the first element, whatever it is (interpreted)"),
     ("C11.R15", "P1", lambda ctx: r15_combinator_checks_by_value(ctx), "the union's and the intersection's emitted checks accept exactly the instances, also with value-dependent members of different bounds (interpreted)"),
     ("C11.R14", "P1", lambda ctx: r14_combination_is_compositional(ctx), "combining emitted checks keeps every member's substitutions, at any nesting depth (interpreted)"),
     ("C11.R7", "P1", r7, "value-dependence is recognised at any nesting depth"),
@@ -613,3 +614,52 @@ def r15_combinator_checks_by_value(ctx):
             (problem or "") + ": a member's value condition is evaluated on (and may accept) a value that is not an instance of that member's bound - the method runs on an argument its annotation excludes, or the user's condition raises on a foreign value",
         )
     ctx.require(n >= 2, "expected the union and the intersection")
+
+
+def r16_shallow_checks_by_value(ctx):
+    """The shallow element checks behind list[T] / Sequence[T] / Collection[T] / Mapping[K, V], interpreted on real
+    containers: an empty container matches, otherwise the first element (first key and its value) decides - whatever
+    that element is, `None` included."""
+    from ..metainterp import HostInterp, Raised, Record
+
+    repo = ctx.repo
+    checks = []
+    for f in repo.all_funcs():
+        if f.cls is not None or f.parent is not None:
+            continue
+        decorated = any(((dotted(d.func) if isinstance(d, ast.Call) else dotted(d)) or "").endswith("dependent_check") for d in f.node.decorator_list)
+        if decorated and f.name.endswith("FastCheck") and len(f.params) in (2, 3):
+            checks.append(f)
+    ctx.require(len(checks) >= 3, "expected the shallow checks of sequences, collections and mappings")
+    for f in checks:
+        ctx.touch(f)
+        funcs = {n: g.node for n, g in f.module.funcs.items() if g.parent is None and g.cls is None and not g.node.decorator_list}
+        hi = HostInterp({}, Record(), {}, globals_env={}, classes={}, functions=funcs)
+        if len(f.params) == 2:
+            ordered = "Sequence" in f.name
+            cases = [([], True), ([1], True), (["a"], False), ([None], False), ([None, 2], False), ([1, None], True), ((1, "a"), True), ((None,), False)]
+            if not ordered:
+                cases += [({1}, True), ({None}, False), (frozenset({"a"}), False), (frozenset(), True)]
+            run = lambda v: hi.call_function(f.node, [v, int], {}, {})  # noqa: E731
+            what = "int"
+        else:
+            cases = [({}, True), ({1: "a"}, True), ({None: "a"}, False), ({1: None}, False), ({1: 2}, False), ({None: None}, False), ({"k": "a"}, False)]
+            run = lambda v: hi.call_function(f.node, [v, int, str], {}, {})  # noqa: E731
+            what = "int -> str"
+        bad = None
+        for v, want in cases:
+            try:
+                got = run(v)
+            except Raised as r:
+                got = f"raises {r.what}"
+            except (TypeError, KeyError, IndexError, AttributeError) as ex:
+                raise AnalysisError(f"{f.key}: not interpretable on {v!r}: {type(ex).__name__}: {ex}")
+            if (got if isinstance(got, str) else bool(got)) != want and bad is None:
+                bad = (v, got, want)
+        ctx.ob(
+            f"{f.key}:shallow-by-value",
+            f.loc(),
+            f"`{f.name}` ({what}): an empty container matches, otherwise the first element decides, whatever it is ({len(cases)} containers interpreted)",
+            bad is None,
+            (f"for {bad[0]!r} the check answers {bad[1]!r}, the first element says {bad[2]}: dispatch (and isinstance) accept a container the annotation excludes - e.g. one whose first element is None" if bad else ""),
+        )
